@@ -475,15 +475,21 @@ def all_consistent(w, j):
 
 
 def k_eff_of(ops, upto, i):
-    """vertex spacing a plain .vertices read of geometry i refers to after ops[:upto]"""
-    k = 1
+    """vertex spacing a plain .vertices read of geometry i refers to after ops[:upto] (explicit tessellate(vertex_spacing=k)
+    stays in force until the next edit; a deep copy inherits the tessellation of its source)"""
+    ks = []
     for op in ops[:upto]:
-        if op[0] == "g" and op[1] == i:
+        if op[0] == "new":
+            ks.append(1)
+        elif op[0] == "copy":
+            ks.append(ks[op[1]] if op[1] < len(ks) else 1)
+        elif op[0] == "g" and op[1] < len(ks):
             if op[2][0] == "tessellate":
-                k = op[2][1] if op[2][1] >= 1 else k
+                if op[2][1] >= 1:
+                    ks[op[1]] = op[2][1]
             elif is_mutator(op):
-                k = 1
-    return k
+                ks[op[1]] = 1
+    return ks[i] if i < len(ks) else 1
 
 
 def known_alias_class(ops, upto, elems, j):
@@ -751,7 +757,7 @@ def rand_gop(rng, o, allow_big=True, allow_k2=True):
     dimh = len(df["cp"][0]) if n else 3
     dim = dimh - (1 if rat else 0)
     dls = {1: [0.5, 0.25, 0.2, 0.125], 2: [0.5, 0.34, 0.25], 3: [0.5, 0.34]}[pd]
-    choices = ["read"] * 6 + ["ctrlpts", "ctrlpts", "delta", "delta", "sample", "knots", "degree", "translate", "scale", "rotate", "insert", "remove", "refine", "bad"]
+    choices = ["read"] * 5 + ["ctrlpts", "ctrlpts", "delta", "delta", "delta", "sample", "sample", "knots", "degree", "translate", "scale", "rotate", "insert", "remove", "refine", "bad"]
     if rat:
         choices += ["weights", "weights", "ctrlptsw", "ctrlptsw"]
     if pd == 1:
@@ -788,9 +794,12 @@ def rand_gop(rng, o, allow_big=True, allow_k2=True):
     if c == "weights":
         return [["weights", gc.weights(rng, n)]]
     if c == "delta":
-        return [["delta", rng.choice([None] + list(range(pd))), rng.choice(dls)]]
+        cur = df["delta"]
+        d = rng.choice([None] + list(range(pd)) * 2)
+        cand = [x for x in dls if d is None or abs(x - cur[d]) > 1e-9] or dls
+        return [["delta", d, rng.choice(cand)]]
     if c == "sample":
-        return [["sample", rng.choice([None] + list(range(pd))), rng.choice({1: [2, 3, 4, 6], 2: [2, 3, 4], 3: [2, 3]}[pd])]]
+        return [["sample", rng.choice([None] + list(range(pd)) * 2), rng.choice({1: [2, 3, 4, 6], 2: [2, 3, 4], 3: [2, 3]}[pd])]]
     if c == "knots":
         d = rng.randrange(pd)
         return [["knots", d, new_kv(rng, df["deg"][d], df["size"][d])]]
@@ -853,6 +862,19 @@ def rand_gop(rng, o, allow_big=True, allow_k2=True):
     return [["delta", None, 2.0]]
 
 
+def fill_reader(rng, o):
+    """a getter that fills one of the caches of o (so that the next edit has something to invalidate)"""
+    df = read_def(o)
+    if not consistent(df):
+        return rng.choice(["r_cpts", "r_bbox"])
+    r = ["r_eval", "r_eval", "r_bbox", "r_cpts"]
+    if df["rat"]:
+        r += ["r_wts", "r_wts", "r_cpts"]
+    if df["pdim"] == 2:
+        r += ["r_tess", "r_tess", "r_eval"]
+    return rng.choice(r)
+
+
 class Hist(Family):
     name = "hist"
     imports = ("Model.Weights", "Model.Equal", "Model.Obj", "Model.ObjRun", "Run.ObjH")
@@ -890,12 +912,15 @@ class Hist(Family):
                     do(["copy", rng.randrange(len(w.geoms))])
                     continue
                 gi = rng.randrange(len(w.geoms)) if rng.random() < 0.6 else len(w.geoms) - 1
-                for g in rand_gop(rng, w.geoms[gi], allow_big=L <= 12):
+                gl = rand_gop(rng, w.geoms[gi], allow_big=L <= 12)
+                if gl[0][0] not in READERS and rng.random() < 0.6:
+                    do(["g", gi, [fill_reader(rng, w.geoms[gi])]])      # read, edit, (read): the pattern that exposes stale caches
+                for g in gl:
                     do(["g", gi, g])
             label = "%s/%s" % (("curve", "surface", "volume")[pd - 1], "rat" if rat else "nonrat")
         else:
             # container histories
-            pd = rng.choice([1, 2, 2, 3])
+            pd = (1, 2, 3, 2)[(i // 8 + kind) % 4]
             rat = rng.random() < 0.5
             d0 = rand_def(rng, pd, rat)
             do(["new", d0])
@@ -913,6 +938,8 @@ class Hist(Family):
             while len(ops) < L + 5:
                 r = rng.random()
                 j = rng.randrange(len(w.conts))
+                if 0.36 <= r < 0.84 and rng.random() < 0.6 and w.celems[j]:
+                    do(["c", j, [rng.choice(["r_eval", "r_eval"] + (["r_tess"] if pd == 2 else []))]])
                 if r < 0.10 and 1 not in w.celems[0]:
                     do(["c", 0, ["add", 1]])
                 elif r < 0.36:
